@@ -99,7 +99,7 @@ def judge_worst(ctx, p, design, tols, m, fn, tag, batch_no):
         if cv == key_of(x):
             continue
         if cnt[cv] != mult * k:
-            ctx.violation("worst/calls_neighbour" + late, "a neighbour design was evaluated %d times, expected %d" % (cnt[cv], k), wit({"neighbour": cv}))
+            ctx.violation("worst/calls_neighbour" + late, "a neighbour design was evaluated %d times, expected %d (%d design(s) with this vector in the batch)" % (cnt[cv], mult * k, mult), wit({"neighbour": cv}))
             return False
     return True
 
